@@ -167,12 +167,74 @@ def run():
             return z3.BoolVal(len(c) == 1)
         rep.add(oblig.check_paths(eng, ps, "%s::drop releases exactly once" % prog.impl_info(f)[1], prop, oblig.fnames(eng), key="semaphore:drop"))
     try:
+        rlimit_obligation(rep, ctx)
         users(rep, ctx)
     except Inconclusive as e:
         o = Obligation("users of the semaphore", "E2 mirsym/z3")
         o.verdict, o.detail = "inconclusive", str(e)
         rep.add(o)
     return rep
+
+
+def rlimit_obligation(rep, ctx):
+    """the number of open-file permits is derived from the limit that is really in effect: rlimit_nofile() returns the soft limit the
+    process has after the call (the raised one only if setrlimit succeeded and really asked for it)"""
+    import optsum
+    import summaries
+    prog = ctx.lib
+    f = prog.find(r"(^|::)rlimit_nofile$")
+    eng = oblig.engine(prog, inline=None, extra=dict(optsum.SUMMARIES))
+    ps = eng.run(f)
+
+    def prop(p):
+        if p.status != "return" or not isinstance(p.result, mirsym.Int):
+            return z3.BoolVal(False)
+        g = [e for e in p.events if e.kind == "call" and re.search(r"(^|::)getrlimit$", e.callee)]
+        sr = [e for e in p.events if e.kind == "call" and re.search(r"(^|::)setrlimit$", e.callee)]
+        if len(g) != 1 or not isinstance(g[0].ret, mirsym.Int):
+            return z3.BoolVal(False)
+        st = mirsym.State()
+        st.mem, st.pc = p.mem, list(p.pc)
+        got = g[0].ret.t == 0
+        # the limits getrlimit reported: fields 0 (soft) and 1 (hard) of the havocked struct
+        lim = summaries.deref_val(eng, st, g[0].args[1])
+        base = getattr(lim, "base", None) or getattr(lim, "name", None)
+        if base is None:
+            return z3.BoolVal(False)
+        soft0 = z3.BitVec(mirsym.sanitize(base + ".0"), 64)
+        eff = soft0
+        for e in sr:
+            if not isinstance(e.ret, mirsym.Int):
+                return z3.BoolVal(False)
+            asked = summaries.deref_val(eng, st, e.args[1])
+            cur = eng.read_proj(None, asked, ("field", 0, "u64")) if isinstance(asked, (mirsym.Agg, mirsym.Lazy)) else None
+            if not isinstance(cur, mirsym.Int):
+                return z3.BoolVal(False)
+            eff = z3.If(e.ret.t == 0, cur.t, eff)
+        # when the limits cannot be read the function falls back to a constant (not part of this obligation)
+        return z3.Implies(got, p.result.t == eff)
+    o = oblig.check_paths(eng, ps, "rlimit_nofile: the value the open-file semaphore is sized from is the soft limit in effect after the call",
+                          prop, oblig.fnames(eng), key="semaphore:users:rlimit", allow=("return", "panic", "diverge"))
+    if o.verdict == "violated":
+        # native: the real function in a process whose soft limit is below the hard limit (replay/rlimit_test.rs)
+        import sys
+        from common import VERIF, copy_repo, scratch_root
+        sys.path.insert(0, os.path.join(VERIF, "replay"))
+        try:
+            import native_driver
+            src = copy_repo("rlimit-replay-src")
+            drv = native_driver.NativeDriver(src, scratch_root(), [("rlimit", "rlimit_test.rs", "verif_rlimit_test")])
+            out = drv.run("rlimit::verif_rlimit_test::verif_rlimit_driver", ["RL"], "rl")
+            ret, soft, hard = (int(x) for x in out[0].split())
+            if ret != soft:
+                o.stats["traces_validated"] = 1
+                o.cex = dict(o.cex or {}, native={"returned": ret, "soft_limit_in_effect": soft, "hard_limit": hard})
+                o.detail += "; replayed natively: rlimit_nofile() returned %d while the soft limit in effect is %d (hard %d)" % (ret, soft, hard)
+            else:
+                o.detail += "; native run: returned value equals the soft limit in effect (%d)" % soft
+        except Exception as ex:   # noqa
+            o.detail += "; native driver: %s" % str(ex)[-200:]
+    rep.add(o)
 
 
 def users(rep, ctx):
